@@ -33,6 +33,20 @@ def garbage_typelevel(types, rng, tier):
             if TL.leaf_count(T.tup(t["schema"])) > 900:
                 continue  # huge arrays: a full iteration is (correctly) longer than the item cap of this run
             c.add(t["tid"], f"iter {rng.choice([0, 1, 2, 3])} {spec} {it_target} {cap} 1 0 1000", None, why, "iterroot")
+        # VALID keys of every depth into a Packed target and as the root of an iteration over Packed keys: a key that needs
+        # more bits than the word has left must come back as an error, whatever room is left
+        s_ = T.tup(t["schema"])
+
+        def max_children(x):
+            return 0 if x[0] == "leaf" else max([T.S.nchildren(x)] + [max_children(T.S.child(x, i)) for i in range(min(T.S.nchildren(x), 3))])
+        if max_children(s_) <= 2 ** 63:      # beyond: the region of known finding F5, exercised by the garbage keys above
+            deep = [p for p in T.all_nodes(s_, limit=60)]
+            for p in (deep if tier != "quick" else deep[:4] + deep[-8:]):
+                src = T.render(s_, p, "indices")
+                c.add(t["tid"], f"xcode {src} packed 64", None, f"valid key {p} of {t['label']} into Packed", "xcode:valid>packed")
+                if len(p) <= 4 and TL.leaf_count(s_) <= 900:
+                    c.add(t["tid"], f"iter 4 {src} packed 64 1 0 1000", None,
+                          f"iteration over Packed keys rooted at {p} of {t['label']}", "iterroot:packed")
         # VALID roots with targets that cannot hold even the root's own key, every state length: the iterator reports
         # error items and terminates, it never indexes outside its state
         s = T.tup(t["schema"])
